@@ -3,6 +3,7 @@ import MW.Props.C05
 import MW.Inv.WorldInv
 import MW.Inv.Demo
 import MW.Inv.WorldPayable
+import MW.Staking.Interface
 /-!
 # C02 — Contract-held staked asset always equals what it owes (solvency)
 
@@ -161,5 +162,15 @@ end Demo
 
 /-- non-vacuity: received 1000 for total 300 with open requests 100 and 200: owed 333 + 666 ≤ 1000 -/
 example : owedOpen [⟨1, "a", 100⟩, ⟨1, "b", 200⟩, ⟨2, "a", 5⟩] 1 1000 300 = 999 := by decide
+
+/-- the statements of this file quantify over every message the staking contract accepts: the `ExecuteMsg` the source
+declares (table regenerated from /repo's `msg.rs` on every run) has exactly the variants, fields and types of the
+model's `ExecMsg`, and the contract exports exactly the modelled entry points.  A message or entry point added to the
+source — which no generated history would exercise — breaks this theorem -/
+theorem messages_are_the_modelled_ones :
+    MW.Generated.Interface.staking_execute = MW.Interface.model_staking_execute
+    ∧ (∀ m : MW.Staking.ExecMsg, MW.Interface.execTag m ∈ MW.Interface.names MW.Generated.Interface.staking_execute)
+    ∧ MW.Generated.Interface.staking_entry_points = ["execute", "instantiate", "migrate", "query", "reply", "sudo"] :=
+  ⟨MW.Interface.staking_execute_eq, MW.Interface.staking_execute_covered.2, MW.Interface.staking_entry_points_eq⟩
 
 end MW.Props.C02
